@@ -43,6 +43,8 @@ package session
 //@ ghostfield gStored map
 //@ ghostfield gHas map
 
+// allStored(has, b, e): every number b..e has been saved and e is not beyond the last number handed out
+//@ spec allStored(has map, b int, e int) bool
 //@ interface MessageStorage assumed
 //@   method Save(storageID fix.StorageID, msg simplefixgo.SendingMessage, msgSeqNum int) (err error):
 //@     modifies gStored(self), gHas(self)
@@ -53,6 +55,7 @@ package session
 //@     forall j int
 //@     ensures[C10] imp(err == nil, msgSeqNumFrom <= msgSeqNumTo && len(res) == msgSeqNumTo - msgSeqNumFrom + 1)
 //@     ensures[C10] imp(err == nil && msgSeqNumFrom <= j && j <= msgSeqNumTo, sel(gHas(self), j) == 1 && nth(res, j - msgSeqNumFrom) == sel(gStored(self), j))
+//@     ensures[C10] @complete imp(msgSeqNumFrom <= msgSeqNumTo && allStored(gHas(self), msgSeqNumFrom, msgSeqNumTo), err == nil)
 
 //@ interface Handler assumed
 //@   method Send(message simplefixgo.SendingMessage) (err error):
@@ -274,4 +277,5 @@ package session
 //@   ensures[C10] @count imp(perr == nil && old(s.state) == SuccessfulLogged && merr == nil && berr == nil, resentN == old(resentN) + mEndSeqNo(req) - mBeginSeqNo(req) + 1)
 //@   ensures[C10] @exact imp(perr == nil && old(s.state) == SuccessfulLogged && merr == nil && berr == nil && mBeginSeqNo(req) <= j && j <= mEndSeqNo(req), sel(resentAt, old(resentN) + j - mBeginSeqNo(req)) == sel(gStored(s.messageStorage), j))
 //@   ensures[C10] @nothingelse imp(perr == nil && merr != nil, resentN == old(resentN))
+//@   ensures[C10] @toend imp(perr == nil && old(s.state) == SuccessfulLogged && berr == nil && mEndSeqNo(req) == 0 && 1 <= mBeginSeqNo(req) && mBeginSeqNo(req) <= cOut(s.counter) && allStored(gHas(s.messageStorage), mBeginSeqNo(req), cOut(s.counter)), resentN == old(resentN) + cOut(s.counter) - mBeginSeqNo(req) + 1)
 //@   ensures[C16] @stable s.state == old(s.state)
